@@ -18,13 +18,14 @@ const schemaA = `{"$schema":"http://json-schema.org/draft-07/schema#","$ref":"#/
 }}`
 
 const schemaB = `{"$schema":"http://json-schema.org/draft-07/schema#","$ref":"#/definitions/B","definitions":{
- "B":{"type":"object","properties":{"x":{"type":"string"},"items":{"type":"array","items":{"oneOf":[{"type":"string"},{"type":"boolean"}]}},"nested":{"type":"object","properties":{"deep":{"type":"string","enum":["u","v"]}}}}},
+ "B":{"type":"object","properties":{"x":{"type":"string"},"items":{"type":"array","items":{"oneOf":[{"type":"string"},{"type":"boolean"}]}},"nested":{"type":"object","properties":{"deep":{"type":"string","enum":["u","v"]}}},"bp":{"$ref":"#/definitions/Part"}}},
+ "Part":{"type":"object","properties":{"r":{"type":"boolean"}}},
  "D1":{"type":"integer","const":1}
 }}`
 
 // gamma is referenced by nothing and references nothing else
 const schemaG = `{"$schema":"http://json-schema.org/draft-07/schema#","$ref":"#/definitions/G","definitions":{
- "G":{"type":"object","properties":{"g":{"type":"string"},"either":{"oneOf":[{"type":"string"},{"type":"boolean"}]}}},
+ "G":{"type":"object","properties":{"g":{"type":"string"},"either":{"oneOf":[{"type":"string"},{"type":"boolean"}]},"gp":{"$ref":"#/definitions/Part"},"ga":{"$ref":"#/definitions/GAlias"}}},
  "Part":{"type":"object","properties":{"q":{"type":"integer"}}},
  "GAlias":{"$ref":"#/definitions/Part"}
 }}`
@@ -86,10 +87,82 @@ options:
       false_as: off
 `
 
+// a second set of rule files: every kind of rule that resolves paths or types against the
+// schemas of the language being generated (options assigning optional fields, merged
+// builders, promoted options, envelopes, constants)
+const veneers2Alpha = `language: all
+package: alpha
+builders:
+  - add_option:
+      by_object: Part
+      option:
+        name: label
+        arguments: [{name: label, type: {kind: scalar, scalar: {scalar_kind: string}}}]
+        assignments: [{path: p, method: direct, value: {argument: {name: label, type: {kind: scalar, scalar: {scalar_kind: string}}}}}]
+  - initialize:
+      by_object: Cat
+      set: [{property: lives, value: 3}]
+  - properties:
+      by_object: Cat
+      set: [{name: extra, type: {kind: scalar, scalar: {scalar_kind: string}}}]
+  - merge_into:
+      destination: A
+      source: Part
+      under_path: part
+      rename_options: {p: partP}
+  - promote_options_to_constructor:
+      by_object: Dog
+      options: [name]
+options:
+  - map_to_index: {by_name: A.tags}
+  - add_assignment:
+      by_name: Cat.lives
+      assignment: {path: type, method: direct, value: {constant: cat}}
+  - add_comments:
+      by_name: A.level
+      comments: [hello]
+`
+
+const veneers2Beta = `language: all
+package: beta
+builders:
+  - add_option:
+      by_object: B
+      option:
+        name: deepest
+        arguments: [{name: d, type: {kind: scalar, scalar: {scalar_kind: string}}}]
+        assignments: [{path: x, method: direct, value: {argument: {name: d, type: {kind: scalar, scalar: {scalar_kind: string}}}}}]
+options:
+  - array_to_append: {by_name: B.items}
+  - struct_fields_as_options: {by_name: B.nested}
+`
+
+// xrefField is, per package, the field that the "xref" variants turn into a reference to
+// the object Part of ANOTHER package (every package has an object of that name).
+var xrefField = map[string]string{"alpha": "alpha.A.flag", "beta": "beta.B.x", "gamma": "gamma.G.g", "aardvark": "aardvark.Z.zf", "zeta": "zeta.Z.zf"}
+
+// a package WITHOUT an object called Part (loaded as package aardvark or zeta: first and
+// last in alphabetical order), used as the referring side only
+const schemaZ = `{"$schema":"http://json-schema.org/draft-07/schema#","$ref":"#/definitions/Z","definitions":{
+ "Z":{"type":"object","properties":{"zf":{"type":"string"},"n":{"type":"integer"}}}
+}}`
+
+func passesXref(referrer, referenced string) string {
+	return "passes:\n  - retype_field:\n      field: " + xrefField[referrer] + "\n      as: {kind: ref, ref: {referred_pkg: " + referenced + ", referred_type: Part}}\n"
+}
+
 func writeInputs(dir, repo string) {
 	files := map[string]string{
 		"in/a.json": schemaA, "in/b.json": schemaB, "in/g.json": schemaG, "in/api.json": openapiDoc, "in/i.json": schemaI,
 		"passes/common.yaml": passes, "veneers/alpha.yaml": veneers,
+		"in/z.json": schemaZ, "veneers2/alpha.yaml": veneers2Alpha, "veneers2/beta.yaml": veneers2Beta,
+	}
+	for _, a := range []string{"alpha", "beta", "gamma", "aardvark", "zeta"} {
+		for _, b := range []string{"alpha", "beta", "gamma"} {
+			if a != b {
+				files["passes/xref-"+a+"-"+b+".yaml"] = passesXref(a, b)
+			}
+		}
 	}
 	for rel, content := range files {
 		p := filepath.Join(dir, rel)
